@@ -362,4 +362,162 @@ theorem writeString_eq (d : digest Nat BO) (raw : Bytes) :
     simp [WriteString, hb, this]
 
 end
+
+/-! ### bundles: the parameters, the translated methods of one package, the generated step machine -/
+
+/-- the parameters of the generated defs at F = ℕ -/
+structure Prims (BO : Type) where
+  fZero : Nat
+  fAdd : Nat → Nat → Nat
+  encrypt : Nat → Nat → Nat
+  boElement : BO → Bytes → Nat × Err
+  fBytes : Nat → Bytes
+  fSet : Nat → Bytes → Nat × Err
+  frHash : Bytes → Bytes → Int → List Nat × Err
+  frBE : BO
+  BS : Int
+
+/-- the assumed behaviour of the parameters (see `ParamsOK`) for the instance `P` and a hasher whose byte order object is `bo` -/
+def OK (P : Params) {BO : Type} (bo : BO) (X : Prims BO) : Prop :=
+  ParamsOK P bo X.fZero X.fAdd X.encrypt X.boElement X.fBytes X.fSet X.BS
+
+/-- the translated functions of one mimc package, applied to the parameters -/
+structure Methods (BO : Type) where
+  reset : digest Nat BO → digest Nat BO
+  sum : digest Nat BO → Bytes → digest Nat BO × Bytes
+  write : digest Nat BO → Bytes → digest Nat BO × (Int × Err)
+  setState : digest Nat BO → Bytes → digest Nat BO × Err
+  state : digest Nat BO → digest Nat BO × Bytes
+  writeString : digest Nat BO → Bytes → digest Nat BO × Err
+  pkgSum : Bytes → Bytes × Err
+
+/-- the methods as translated from ecc/bn254/fr/mimc, with the length literal / first error message of `SetState` as given -/
+def refMethods {BO : Type} (X : Prims BO) (n : Int) (msg : String) : Methods BO where
+  reset := Mimc_bn254.Reset X.fZero X.fAdd X.encrypt X.boElement X.fBytes X.fSet X.frHash X.frBE X.BS
+  sum := Mimc_bn254.Sum X.fZero X.fAdd X.encrypt X.boElement X.fBytes X.fSet X.frHash X.frBE X.BS
+  write := Mimc_bn254.Write X.fZero X.fAdd X.encrypt X.boElement X.fBytes X.fSet X.frHash X.frBE X.BS
+  setState := SetStateN X.fSet n msg
+  state := Mimc_bn254.State X.fZero X.fAdd X.encrypt X.boElement X.fBytes X.fSet X.frHash X.frBE X.BS
+  writeString := Mimc_bn254.WriteString X.fZero X.fAdd X.encrypt X.boElement X.fBytes X.fSet X.frHash X.frBE X.BS
+  pkgSum := Mimc_bn254.pkgSum X.fZero X.fAdd X.encrypt X.boElement X.fBytes X.fSet X.frHash X.frBE X.BS
+
+/-- one call on the generated hasher, with its outcome in the model's vocabulary -/
+def gstep {BO : Type} (M : Methods BO) (d : digest Nat BO) : Op → digest Nat BO × Out
+  | .write p => ((M.write d p).1, outW (M.write d p).2)
+  | .sum b => ((M.sum d b).1, .bytes (M.sum d b).2)
+  | .reset => (M.reset d, .unit)
+  | .state => ((M.state d).1, .bytes (M.state d).2)
+  | .setState st => ((M.setState d st).1, outE (M.setState d st).2)
+
+def grun {BO : Type} (M : Methods BO) (d : digest Nat BO) : List Op → digest Nat BO × List Out
+  | [] => (d, [])
+  | op :: ops =>
+    let r := gstep M d op
+    let rs := grun M r.1 ops
+    (rs.1, r.2 :: rs.2)
+
+/-- the invariant is preserved by the model -/
+theorem step_h_lt (P : Params) (s : Digest) (op : Op) (hq : 0 < P.q) (h : s.h < P.q) : (step P s op).1.h < P.q := by
+  cases op with
+  | write p => simp only [step]; cases decodeBlocks P (pad P p) <;> exact h
+  | sum b => exact mp_lt P _ _ h
+  | state => exact mp_lt P _ _ h
+  | reset => exact hq
+  | setState st => simp only [step]; split
+                   · rename_i hc; exact hc.2
+                   · exact h
+
+theorem gstep_refines {BO : Type} (P : Params) (bo : BO) (X : Prims BO) (n : Int) (msg : String)
+    (hok : OK P bo X) (hn : (P.size : Int) = n) (d : digest Nat BO) (hbo : d.byteOrder = bo) (hlt : d.h < P.q) (op : Op) :
+    abs (gstep (refMethods X n msg) d op).1 = (step P (abs d) op).1 ∧
+    (gstep (refMethods X n msg) d op).2 = (step P (abs d) op).2 ∧
+    (gstep (refMethods X n msg) d op).1.byteOrder = bo ∧
+    (gstep (refMethods X n msg) d op).1.h < P.q := by
+  have key : abs (gstep (refMethods X n msg) d op).1 = (step P (abs d) op).1 ∧
+      (gstep (refMethods X n msg) d op).2 = (step P (abs d) op).2 ∧
+      (gstep (refMethods X n msg) d op).1.byteOrder = bo := by
+    cases op with
+    | write p =>
+      obtain ⟨h1, h2, h3, _⟩ := write_refines (frHash := X.frHash) (frBE := X.frBE) hok d hbo p
+      exact ⟨h1, h2, h3.trans hbo⟩
+    | sum b =>
+      obtain ⟨h1, h2, h3⟩ := sum_refines (frHash := X.frHash) (frBE := X.frBE) hok d b hlt
+      exact ⟨h1, h2, h3.trans hbo⟩
+    | reset =>
+      obtain ⟨h1, h3⟩ := reset_refines (frHash := X.frHash) (frBE := X.frBE) hok d
+      exact ⟨h1, by simp [gstep, step], h3.trans hbo⟩
+    | state =>
+      obtain ⟨h1, h2, h3⟩ := state_refines (frHash := X.frHash) (frBE := X.frBE) hok d hlt
+      exact ⟨h1, h2, h3.trans hbo⟩
+    | setState st =>
+      obtain ⟨h1, h2, h3, _⟩ := setStateN_refines hok n msg hn d st
+      exact ⟨h1, h2, h3.trans hbo⟩
+  refine ⟨key.1, key.2.1, key.2.2, ?_⟩
+  have := step_h_lt P (abs d) op hok.q_pos hlt
+  rw [← key.1] at this
+  exact this
+
+/-- a refused call returns the hasher it was given (all fields) -/
+theorem gstep_error_unchanged {BO : Type} (P : Params) (bo : BO) (X : Prims BO) (n : Int) (msg : String)
+    (hok : OK P bo X) (hn : (P.size : Int) = n) (d : digest Nat BO) (hbo : d.byteOrder = bo) (op : Op)
+    (he : (gstep (refMethods X n msg) d op).2 = .err) : (gstep (refMethods X n msg) d op).1 = d := by
+  cases op with
+  | write p =>
+    obtain ⟨_, _, _, h4⟩ := write_refines (frHash := X.frHash) (frBE := X.frBE) hok d hbo p
+    apply h4
+    intro hnil
+    simp [gstep, refMethods, outW, hnil] at he
+  | setState st =>
+    obtain ⟨_, _, _, h4⟩ := setStateN_refines hok n msg hn d st
+    apply h4
+    intro hnil
+    simp [gstep, refMethods, outE, hnil] at he
+  | sum b => simp [gstep] at he
+  | state => simp [gstep] at he
+  | reset => simp [gstep] at he
+
+theorem grun_refines {BO : Type} (P : Params) (bo : BO) (X : Prims BO) (n : Int) (msg : String)
+    (hok : OK P bo X) (hn : (P.size : Int) = n) (ops : List Op) :
+    ∀ (d : digest Nat BO), d.byteOrder = bo → d.h < P.q →
+      abs (grun (refMethods X n msg) d ops).1 = (run P (abs d) ops).1 ∧
+      (grun (refMethods X n msg) d ops).2 = (run P (abs d) ops).2 ∧
+      (grun (refMethods X n msg) d ops).1.byteOrder = bo ∧
+      (grun (refMethods X n msg) d ops).1.h < P.q := by
+  induction ops with
+  | nil => intro d hbo hlt; exact ⟨rfl, rfl, hbo, hlt⟩
+  | cons op ops ih =>
+    intro d hbo hlt
+    obtain ⟨h1, h2, h3, h4⟩ := gstep_refines P bo X n msg hok hn d hbo hlt op
+    obtain ⟨i1, i2, i3, i4⟩ := ih _ h3 h4
+    simp only [grun, run]
+    rw [← h1, ← h2]
+    exact ⟨i1, by rw [i2], i3, i4⟩
+
+/-! ### a canonical instance of the parameters (non-vacuity of `OK` for every `P`) -/
+
+/-- the parameters read off the model: addition mod q, the model's `encrypt`, block decoding in the byte order of `P` -/
+def canonical (P : Params) : Prims Unit where
+  fZero := 0
+  fAdd a b := (a + b) % P.q
+  encrypt := MiMC.encrypt P
+  boElement _ blk := if decBlock P blk < P.q then (decBlock P blk, Err.nil) else (0, Err.sentinel "invalid fr.Element encoding")
+  fBytes := encBE P.size
+  fSet z buf := if beToNat buf < P.q then (beToNat buf, Err.nil) else (z, Err.sentinel "invalid fr.Element encoding")
+  frHash _ _ _ := ([0], Err.nil)
+  frBE := ()
+  BS := (P.size : Int)
+
+theorem canonical_ok (P : Params) (hs : 0 < P.size) (hq : 0 < P.q) : OK P () (canonical P) where
+  size_pos := hs
+  q_pos := hq
+  blockSize := rfl
+  zero := rfl
+  add _ _ := rfl
+  enc _ _ := rfl
+  dec_ok blk _ hv := by simp [canonical, hv]
+  dec_err blk _ hv := by simp [canonical, hv]
+  bytes _ _ := rfl
+  set_ok z buf _ hv := by simp [canonical, hv]
+  set_err z buf _ hv := by simp [canonical, hv]
+
 end GV.MiMC.DigestGen
